@@ -110,6 +110,17 @@ func stillCorpus(seed int64, repo string) []namedFile {
 	add("hand-exif-xmp-after", rewrap(base, nil, [][]byte{riffwalk.ChunkBytes("EXIF", blob(3, 2)), riffwalk.ChunkBytes("XMP ", blob(5, 3))}, riffwalk.FlagEXIF|riffwalk.FlagXMP))
 	add("hand-icc-before", rewrap(mustEncode(imgs.Make(9, 9, "gradient", "agradient", seed), nil), [][]byte{riffwalk.ChunkBytes("ICCP", blob(9, 1))}, nil, riffwalk.FlagICC))
 	add("hand-lossless-vp8x", rewrap(mustEncode(imgs.Make(9, 9, "c4", "binary", seed), &webp.EncoderOptions{Lossless: true, Quality: 75, Method: 4}), nil, nil, 0))
+	// generator-made files: valid streams no encoder emits (every 3rd VP8L file, every 8th key frame)
+	for i, f := range genCorpus(seed) {
+		if i%3 == 0 {
+			out = append(out, f)
+		}
+	}
+	for i, f := range vp8Corpus(seed) {
+		if i%8 == 0 {
+			out = append(out, f)
+		}
+	}
 	// the repository's own test files
 	if m, _ := filepath.Glob(filepath.Join(repo, "testdata", "*.webp")); len(m) > 0 {
 		for _, p := range m {
